@@ -16,7 +16,10 @@ func (i *Item) DedupeItems() error {
 			continue
 		}
 		if existing, ok := urls[node.url.String()]; ok {
-			if existing.status != ItemCompleted && !existing.IsSeed() && node.status == ItemCompleted { // Keep the completed item
+			// Keep the completed item, and never drop an item that was already worked on
+			// (it may have children) in favour of a fresh duplicate found earlier in the tree
+			if !existing.IsSeed() && ((existing.status != ItemCompleted && node.status == ItemCompleted) ||
+				(existing.status == ItemFresh && node.status != ItemFresh)) {
 				existing.parent.RemoveChild(existing)
 				urls[node.url.String()] = node
 			} else {
